@@ -192,8 +192,16 @@ func runC02(c *Case, out func(string)) {
 		return
 	}
 	memsize, _ := strconv.ParseInt(hdrVal(c.Hdr, "memsize", "4096"), 10, 64)
+	maxmem, _ := strconv.Atoi(hdrVal(c.Hdr, "maxmem", "1000"))
 	mode := hdrVal(c.Hdr, "sync", "immediate")
 	writes, _ := c02Writes(c)
+	// bytes the program logs (payloads): recovery needs them to fit MaxMemTables memtables (D11)
+	var loggedSize int64
+	for _, w := range writes {
+		for _, o := range w.ops {
+			loggedSize += int64(13 + len(o.k) + 4 + len(o.v))
+		}
+	}
 	// key alphabet of the program
 	keyset := map[string]bool{}
 	for _, w := range writes {
@@ -255,7 +263,7 @@ func runC02(c *Case, out func(string)) {
 		site, hit := l[1], l[2]
 		root := tmpDir("c02-")
 		dir := filepath.Join(root, "db")
-		if err := writeManifest(dir, memsize, 1000, func(cf *config.Config) {
+		if err := writeManifest(dir, memsize, maxmem, func(cf *config.Config) {
 			cf.WALSyncMode = syncMode(mode)
 			cf.WALSyncBytes = 256
 		}); err != nil {
@@ -328,6 +336,9 @@ func runC02(c *Case, out func(string)) {
 		}
 		if logSetAside(dir) {
 			fail(fmt.Sprintf("crash at %s:%s: recovery moved the log to a backup directory", site, hit))
+			if loggedSize >= memsize*int64(maxmem) {
+				out("KF recovery_budget_exceeded") // known finding D11: the log outgrew MaxMemTables memtables
+			}
 		}
 		got := map[string][]byte{}
 		var sb strings.Builder
